@@ -276,6 +276,12 @@ def mon_locking(pid, run):
                     if v["power"] != 0 or a in ranked:
                         hits.append((i, "%s validator %s has power %d / ranked=%s" % (v["status"], a, v["power"], a in ranked)))
         if pid == "C15":
+            ranked15 = {a for (_, a) in d["_rank"]}
+            for a, v in V.items():
+                # "a validator that drops below a threshold leaves the candidate set immediately with zero power" - and an
+                # exited validator never comes back: no power, no ranking entry, not in the recorded set
+                if v["status"] == "inactive" and (v["power"] != 0 or a in ranked15 or a in d["_set"]):
+                    hits.append((i, "exited validator %s still has power %d / ranked=%s / in the set=%s" % (a, v["power"], a in ranked15, a in d["_set"])))
             for u in d["_qunl"]:
                 t0 = led.unlock_req_time.get(u[0])
                 if t0 is not None and led.now < t0 + led.params.get("unlock", 0):
